@@ -77,3 +77,41 @@ def _walk(e):
     for ch in e.children():
         for x in _walk(ch):
             yield x
+
+
+def per_method_obligation(run):
+    """check_methods hands every method it walks to check_method, on every path of its per-method closure (so that a duplicated
+    name, a transact-code problem or any early return cannot make a method escape the oneway/return-type/direction rules)."""
+    try:
+        prog = mir.Program(mir.dump_mir())
+        cl = [f for f in prog.fns if re.search(r'(^|::)check_methods::\{closure#0\}$', f.name)]
+        if len(cl) != 1:
+            raise mir.Unsupported('check_methods closure: %d candidates' % len(cl))
+        paths = mir.cfg_paths(cl[0])
+        outer = [f for f in prog.fns if re.search(r'(^|::)validation::check_methods$', f.name) or f.name == 'check_methods']
+        walk_ok = any(re.search(r'walk_methods::<', st) for f in outer for b in f.blocks.values() for st in b)
+    except (mir.Unsupported, RuntimeError) as e:
+        run.inconclusive('check_methods calls check_method for every method', 'M', str(e))
+        return
+    bad, nq, n = [], 0, 0
+    for pc, ev in paths:
+        s = z3.Solver(); s.add(*pc); nq += 1
+        if s.check() != z3.sat:
+            continue
+        n += 1
+        calls = [(c, a) for (_b, c, a, _d) in ev if c != '=']
+        hit = [i for i, (c, a) in enumerate(calls) if re.search(r'(^|::)check_method$', c) and re.match(r'^(copy|move) _2\b', a.strip())]
+        if not hit:
+            bad.append('a path of the per-method closure returns without calling check_method on its method (calls: %s)' % [c.split('::')[-1][:24] for c, _ in calls][:8])
+    title = 'check_methods walks the methods with walk_methods and calls check_method on each, on every path of its per-method closure'
+    if not walk_ok:
+        run.inconclusive(title, 'M', 'check_methods does not call walk_methods')
+    elif not n:
+        run.inconclusive(title, 'M', 'no feasible path')
+    elif bad:
+        import native
+        n2, nb = native.sweep_c10()
+        rep = any('same-name' in str(b) for b in nb)
+        run.violated(title, 'M', 'check_methods-skips-check_method', {'detail': bad[:2], 'native': [b for b in nb if 'same-name' in str(b)][:2]}, rep, queries=nq, detail=bad[0][:300])
+    else:
+        run.holds(title, 'M', queries=nq, bound='all %d feasible CFG paths of check_methods::{closure#0}' % n)
